@@ -254,6 +254,7 @@ def set_default_doc(param, emit_default_doc=True):
     # if param is None: param = {"doc": "", "typ": "Any"}
     if _param is None or "doc" not in _param:
         return name, _param
+    _param = dict(_param)  # do not modify the IR of the caller
     has_defaults = "Defaults" in _param["doc"] or "defaults" in _param["doc"]
 
     if has_defaults and not emit_default_doc:
